@@ -83,8 +83,18 @@ func genOutCase(t *rapid.T, forceSigned bool) OutCase {
 	if rapid.IntRange(0, 3).Draw(t, "noSPIssuer") == 0 {
 		sp.SPIssuer = ""
 	}
-	if rapid.IntRange(0, 2).Draw(t, "noFormat") == 0 {
+	switch rapid.IntRange(0, 5).Draw(t, "noFormat") {
+	case 0, 1:
 		sp.NameIDFormat = ""
+	case 2:
+		// one step away from a registered format identifier (or from any other constant of the implementation)
+		if v := h.GenLookAlike(rapid.SampledFrom([]string{"nameid-format", "nameid-format", "urn:", ""}).Draw(t, "lookAlikeFamily")).Draw(t, "formatLookAlike"); v != "" {
+			sp.NameIDFormat = v
+		}
+	case 3:
+		if d := h.CodeLiterals(); len(d) > 0 {
+			sp.NameIDFormat = rapid.SampledFrom(d).Draw(t, "formatLiteral")
+		}
 	}
 	sp.ForceAuthn = rapid.Bool().Draw(t, "forceAuthn")
 	sp.IsPassive = rapid.Bool().Draw(t, "isPassive")
